@@ -42,6 +42,14 @@ def stdPrims : Prims :=
     applyFilter := fun name recv args => applyFilter (lookupImpl stdFilterImpls) name recv args,
     hasFilter := fun name => (lookupSig name).isSome }
 
+/-- the standard engine with another budget for the array conversion of a range (`convert`): `stdPrims` is
+    `stdPrimsB 1000000` (`stdPrims_eq_budget`). The budget is not part of the semantics: see `Proofs/Budget.lean`. -/
+def stdPrimsB (budget : Int) : Prims :=
+  { stdPrims with
+    applyFilter := fun name recv args => applyFilter (lookupImpl stdFilterImpls) name recv args budget }
+
+theorem stdPrims_eq_budget : stdPrims = stdPrimsB 1000000 := rfl
+
 def fsOfList (files : List (Bytes × Bytes)) : FS :=
   { read := fun p =>
       -- the operating system rejects a name with a NUL byte (EINVAL) or a component over NAME_MAX (ENAMETOOLONG)
